@@ -26,6 +26,8 @@ CFGS = {
     "sse2a":  dict(features=["glam-assert"], default=True, sse=True),
     "scalara": dict(features=["scalar-math", "glam-assert"], default=True, sse=False),
     "libm":   dict(features=["libm"], default=True, sse=True),
+    "diff":   dict(features=[], default=True, sse=True, assert_copy=["glam-assert"]),
+    "diffs":  dict(features=["scalar-math"], default=True, sse=False, assert_copy=["glam-assert", "scalar-math"]),
     "feat":   dict(features=["serde", "bytemuck", "mint"], default=True, sse=True),
     "feats":  dict(features=["serde", "bytemuck", "mint", "scalar-math"], default=True, sse=False),
 }
@@ -81,7 +83,7 @@ class Harness:
 
 def rust_source(harnesses, cfg, prelude=""):
     sse = CFGS[cfg]["sse"]
-    out = ["#![allow(warnings)]", '#![recursion_limit = "2048"]',
+    out = ["#![allow(warnings)]", '#![recursion_limit = "16384"]',
            "#![cfg_attr(kani, feature(stmt_expr_attributes))]",
            f'#[path = "{VERIF}/harness/common/support.rs"] pub mod support;',
            "use support::*;", "use glam::*;",
@@ -179,6 +181,19 @@ def write_crate(cdir, cfg, src, with_replay_bin=True):
     extra_deps = ""
     if "serde" in c["features"]:
         extra_deps = 'serde = { version = "1.0", default-features = false }\nbytemuck = { version = "1.9", default-features = false }\nmint = { version = "0.5.8", default-features = false }\n'
+    if c.get("assert_copy"):
+        # second copy of /repo's current working tree, built with glam-assert, imported as `glam_a` (version bumped so cargo accepts two `glam` packages)
+        copy = os.path.join(BUILD, "repo-assert-copy")
+        os.makedirs(copy, exist_ok=True)
+        subprocess.run(["rsync", "-a", "--delete", "--exclude", "target", "--exclude", ".git", REPO + "/", copy + "/"], check=True)
+        ct = open(os.path.join(copy, "Cargo.toml")).read()
+        ct = re.sub(r'^name = "glam"', 'name = "glam_a"', ct, count=1, flags=re.M)   # a different crate name: cargo and Kani's stub resolver can tell the two trees apart
+        open(os.path.join(copy, "Cargo.toml"), "w").write(ct)
+        af = ", ".join(f'"{f}"' for f in c["assert_copy"])
+        extra_deps += f'glam_a = {{ path = "{copy}", features = [{af}] }}\n'
+        lockp = os.path.join(cdir, "Cargo.lock")
+        if os.path.exists(lockp):
+            os.remove(lockp)
     cargo = f'''[package]
 name = "vh"
 version = "0.0.0"
